@@ -1,4 +1,7 @@
+mod corpus;
+mod cssread;
 mod engine;
+mod gen;
 mod props;
 mod rs;
 
@@ -12,8 +15,39 @@ fn usage() -> ! {
 fn main() {
     let args: Vec<String> = std::env::args().skip(1).collect();
     rs::install_panic_hook();
-    rs::silence_stderr();
+    if args.first().map(|s| s.as_str()) != Some("--worker") {
+        rs::silence_stderr();
+    }
     let code = match args.as_slice() {
+        [e, expr] if e == "--eval" => {
+            match rs::inspect(expr) {
+                Ok(v) => println!("{v}"),
+                Err(r) => println!("{}", r.brief()),
+            }
+            0
+        }
+        [e, file] if e == "--compile" || e == "--compressed" => {
+            let src = std::fs::read(file).unwrap_or_default();
+            let o = if e == "--compressed" { rs::Opts::compressed() } else { rs::Opts::default() };
+            match rs::compile(&src, &o) {
+                rs::Res::Ok(b) => print!("{}", String::from_utf8_lossy(&b)),
+                r => println!("{}", r.brief()),
+            }
+            0
+        }
+        [e, n] if e == "--sample-grammar" => {
+            use proptest::strategy::{Strategy, ValueTree};
+            let mut runner = proptest::test_runner::TestRunner::deterministic();
+            let st = gen::prog::sheet(gen::prog::Cfg { wild: false, ..Default::default() });
+            for _ in 0..n.parse::<usize>().unwrap_or(10) {
+                let src = st.new_tree(&mut runner).unwrap().current();
+                let r = rs::compile(src.as_bytes(), &rs::Opts::default());
+                if let rs::Res::Err { kind: "ParseError", text } = &r {
+                    println!("=== {}", text.lines().take(6).collect::<Vec<_>>().join(" | "));
+                }
+            }
+            0
+        }
         [w, id] if w == "--worker" => props::dispatch(id, props::Mode::Worker),
         [id, r, path] if r == "--replay" => props::dispatch(id, props::Mode::Replay(path.clone())),
         [id, t] if t == "quick" => props::dispatch(id, props::Mode::Check(Tier::Quick)),
